@@ -102,6 +102,13 @@ func body(sp spec) {
 			iv := &invRec{stage: st.name, msg: m}
 			invs = append(invs, iv)
 			current = iv
+			// the stages honour the context of what they are given (as a handler calling a database or an HTTP API
+			// would): a delivery whose context has already ended cannot be worked on
+			if err := m.Context().Err(); err != nil {
+				iv.fault = 1
+				vs.Fail("delivery-context-live", "stage %s was given %s with a context that has already ended: %v", st.name, m.UUID, err)
+				return nil, err
+			}
 			n := calls[st.name]
 			calls[st.name]++
 			if n < sp.MaxPer {
